@@ -188,8 +188,13 @@ def partA(o, cfg):
             out = np.moveaxis(np.tensordot(L, out, axes=(1, ax)), 0, ax)
         return out
 
-    def cmpz(name, got, exp, key):
-        o.cmp(name, got, exp, 1e-12, np.max(np.abs(exp)) + 1e-300, key=key)
+    def cmpz(name, got, exp, key, amp=None):
+        # scale: largest element, or (for transformed arrays) the transformation applied to absolute values, so
+        # that results that vanish by symmetry (x^T A x of an antisymmetric block) are compared on a sound scale
+        sc = np.max(np.abs(exp)) + 1e-300
+        if amp is not None:
+            sc = max(sc, float(np.max(amp)))
+        o.cmp(name, got, exp, 1e-12, sc, key=key)
 
     for types in al.type_patterns(n):
         types = list(types)
@@ -210,7 +215,8 @@ def partA(o, cfg):
             if alls:
                 cmpz("four-index spherical", inst.construct_array_spherical(), exp, "A-four-sph")
                 o.call()
-            cmpz("four-index lincomb" + tag, inst.construct_array_lincomb(T, types), ap(exp, T, 4), "A-four-lincomb")
+            cmpz("four-index lincomb" + tag, inst.construct_array_lincomb(T, types), ap(exp, T, 4), "A-four-lincomb",
+                 ap(np.abs(exp), np.abs(T), 4))
             o.call()
             continue
         for nm, cls, C, nax in (("one-index", One, C1, 1), ("two-index symmetric", TwoSym, Csym, 2),
@@ -225,7 +231,8 @@ def partA(o, cfg):
             if alls:
                 cmpz(nm + " spherical", inst.construct_array_spherical(), exp, "A-%s-sph" % nm)
                 o.call()
-            cmpz(nm + " lincomb" + tag, inst.construct_array_lincomb(T, types), ap(exp, T, nax), "A-%s-lincomb" % nm)
+            cmpz(nm + " lincomb" + tag, inst.construct_array_lincomb(T, types), ap(exp, T, nax), "A-%s-lincomb" % nm,
+                 ap(np.abs(exp), np.abs(T), nax))
             o.call()
         # asymmetric: second basis = reversed shell list (own labels) with the reversed type pattern
         sh2 = shells[::-1]
